@@ -262,6 +262,140 @@ def grep_bypass():
     return hits
 
 
+# ------------------------------------------------------------------ static entry points x directory shapes
+import itertools
+
+DIR_SHAPES, SHAPE_WORD = G.DIR_SHAPES, G.SHAPE_WORD
+# entry points of the harness (c16.entries) -> the public function they call
+ENTRY_FUNCTION = {
+    "engine.database_exists": "database_exists", "engine.load_database": "load_database",
+    "engine.load_database(1-arg)": "load_database", "engine.load_and_observe": "load_database",
+    "engine.create_or_load_database(1.x)": "create_or_load_database",
+    "engine.create_or_load_database(2.x)": "create_or_load_database",
+    "engine.create_or_load_database(3-arg)": "create_or_load_database",
+    "v2.engine_library.exists": "exists", "v2.engine_library.load": "load", "v2.engine_library.load_and_observe": "load"}
+# public functions that take a library directory: observers (never modify it), conditional observers
+# (create_or_load_database: an observer whenever m.db or Database2/m.db is present) and creators
+DIR_OBSERVERS = {"database_exists", "load_database", "load", "exists"}
+DIR_CONDITIONAL = {"create_or_load_database"}
+DIR_CREATORS = {"create_database", "create_database_from_scripts", "create"}
+ENGINE_HEADERS_KNOWN = {"engine.hpp", "engine_schema.hpp", "base_engine_library.hpp", "v2/engine_library.hpp",
+                        "v2/track_table.hpp", "v2/playlist_table.hpp", "v2/playlist_entity_table.hpp",
+                        "v2/information_table.hpp", "v2/change_log_table.hpp", "v2/beat_data_blob.hpp", "v2/loops_blob.hpp",
+                        "v2/overview_waveform_data_blob.hpp", "v2/quick_cues_blob.hpp", "v2/track_data_blob.hpp"}
+LIB_METHODS_OBS = {"verify", "directory", "schema", "database", "track", "playlist", "playlist_entity", "information",
+                   "change_log", "load", "exists"}
+LIB_METHODS_OTHER = {"create", "create_temporary", "engine_library", "base_engine_library", "make_shared", "move"}
+
+
+shape_text, library_present, parse_probe = G.shape_text, G.library_present, G.parse_probe
+
+
+def judge_probe(sh, entry, d):
+    """-> [(tag, text)]: the property text on one probe (observing = directory listing unchanged, same answer twice)"""
+    fn = ENTRY_FUNCTION.get(entry, entry)
+    if fn in DIR_CONDITIONAL and not library_present(sh):
+        return []       # nothing there: create_or_load_database is a creator on this shape (C10's subject)
+    out = []
+    if d["before"] != d["after"]:
+        out.append(("modified", "the directory changed while %s was applied to a directory with %s: [%s] -> [%s]" % (
+            entry, shape_text(sh), d["l0"][:160], d["l1"][:200])))
+    if d["a1"] != d["a2"]:
+        out.append(("answers-differ", "%s answered %s, then %s on a directory with %s" % (entry, d["a1"][:60], d["a2"][:60], shape_text(sh))))
+    return out
+
+
+def scan_engine_headers(seen_functions):
+    """every public header under include/djinterop/engine (any namespace: engine, engine::v1, engine::v2, ...) is a
+    known one, and every function in them that takes a directory is classified and (observers) was exercised"""
+    problems = []
+    root = os.path.join(REPO, "include", "djinterop", "engine")
+    found = set()
+    for dp, _, fs in os.walk(root):
+        for f in fs:
+            rel = os.path.relpath(os.path.join(dp, f), root)
+            found.add(rel)
+            if rel not in ENGINE_HEADERS_KNOWN:
+                problems.append("public header engine/%s is not classified (new namespace / new entry points?)" % rel)
+                continue
+            txt = open(os.path.join(dp, f), errors="replace").read()
+            txt = re.sub(r"/\*.*?\*/", "", txt, flags=re.S)
+            txt = "\n".join(l.split("//")[0] for l in txt.split("\n"))
+            for m in re.finditer(r"\b([a-z_][a-z0-9_]*)\s*\(([^()]*)\)", txt):
+                name, args = m.group(1), m.group(2)
+                if not re.search(r"std::string\s*&\s*(db_)?directory\b", args):
+                    continue
+                if name in DIR_CREATORS:
+                    continue
+                if name in DIR_OBSERVERS | DIR_CONDITIONAL:
+                    if name not in seen_functions:
+                        problems.append("%s (engine/%s) takes a directory but was not exercised on the directory shapes" % (name, rel))
+                else:
+                    problems.append("%s (engine/%s) takes a directory and is not classified (observer / creator?)" % (name, rel))
+    for rel in ("v2/engine_library.hpp", "base_engine_library.hpp"):
+        ms = header_methods(os.path.join("engine", rel))
+        for m in ms or []:
+            if m not in LIB_METHODS_OBS | LIB_METHODS_OTHER and not m.endswith("_table"):
+                problems.append("engine/%s: member %s is not classified (observer or mutator?)" % (rel, m))
+    return problems
+
+
+def dir_shape_stream(ctx, rng):
+    """Every static entry point that takes a directory, applied twice to every directory shape (fresh copy each),
+    with a recursive listing + SHA-256 of every file before / after as the oracle."""
+    thorough = ctx.tier == "thorough"
+    pairs = [(G.SCHEMAS_V1[-1 - (ctx.seed % 2)], G.SCHEMAS_V2[-1])] if not thorough else \
+        [(G.SCHEMAS_V1[-1], G.SCHEMAS_V2[-1]), (G.SCHEMAS_V1[0], G.SCHEMAS_V2[0]), (rng.choice(G.SCHEMAS_V1[1:-1]), rng.choice(G.SCHEMAS_V2[1:-1])),
+         (G.SCHEMAS_V1[-2], rng.choice(G.SCHEMAS_V2))]
+    if not thorough:
+        pairs.append((rng.choice(G.SCHEMAS_V1[:-2]), rng.choice(G.SCHEMAS_V2[:-1])))
+    ent_out, _ = runner.run_harness_script(["c16.entries"])
+    entries = ent_out[0][3:].split(",") if ent_out and ent_out[0].startswith("ok ") else []
+    res = {"violations": [], "divergences": [], "evaluations": 0, "hist": {}, "probes": []}
+    if not entries:
+        res["divergences"].append({"input": "c16.entries", "impl": str(ent_out)[:80], "model": "the harness lists its directory entry points"})
+        return res
+    scripts, meta = [], []
+    for pi, (s1, s2) in enumerate(pairs):
+        # the second quick pair samples the shapes (every shape letter in every position still occurs)
+        shapes = DIR_SHAPES if (thorough or pi == 0) else ["N0"] + rng.sample(DIR_SHAPES[1:], 16)
+        for sh in shapes:
+            scripts.append(["c16.probe %s %s %s %s" % (sh, en, s1, s2) for en in entries])
+            meta.append((sh, s1, s2))
+    outs = runner.run_harness(scripts, watchdog=30)
+    answers = {}
+    bad = {}        # (entry, tag) -> [(shape, line, text)]
+    for (sh, s1, s2), sc, (o, _) in zip(meta, scripts, outs):
+        for en, line, x in zip(entries, sc, o):
+            d = parse_probe(x)
+            res["evaluations"] += 1
+            if d is None:
+                res["divergences"].append({"input": line, "impl": x[:100], "model": "the probe answers"})
+                continue
+            cls = re.sub(r"_schema_\w+|_[0-9a-f]{16}.*", "", d["a1"])[:40]
+            answers.setdefault(en, {}).setdefault(cls, 0)
+            answers[en][cls] += 1
+            res["probes"].append((sh, en, s1, s2, d))
+            for tag, text in judge_probe(sh, en, d):
+                bad.setdefault((en, tag), []).append((sh, line, text))
+    for (en, tag), lst in sorted(bad.items()):
+        sh, line, text = lst[0]
+        shapes_hit = sorted({x[0] for x in lst})
+        res["violations"].append({
+            "tag": tag, "signature": {"family": "dir", "op": en, "effect": tag, "shapes": ",".join(shapes_hit)},
+            "header": {"kind": "script", "what": "%s (%d directory shapes: %s)" % (text[:300], len(shapes_hit), ",".join(shapes_hit)[:120])},
+            "body": [line, "# entry point: %s   directory: %s" % (en, shape_text(sh)), "# verdict: %s" % text,
+                     "# all shapes showing it: %s" % ",".join(shapes_hit)]})
+    seen_fn = {ENTRY_FUNCTION.get(e, e) for e in entries}
+    for pb in scan_engine_headers(seen_fn):
+        res["divergences"].append({"input": "public headers under include/djinterop/engine", "impl": pb,
+                                   "model": "every public function that takes a directory is an exercised observer or a creator"})
+    res["hist"] = {"schema_pairs": ["%s+%s" % p for p in pairs], "shapes": len(DIR_SHAPES), "entry_points": entries,
+                   "probes": res["evaluations"], "answers_per_entry": answers,
+                   "create_or_load_judged_as_observer_on": sum(1 for sh in DIR_SHAPES if library_present(sh))}
+    return res
+
+
 # ------------------------------------------------------------------ the tie
 def mk_violation(schema, body, tag, observer, text, state):
     fam = G.family(schema)
@@ -464,6 +598,13 @@ def tie(ctx):
                                                o[1].split(" ", 2)[2], o[4].split(" ", 2)[2]), 0))
         elif o[2] != o[3]:
             violations.append(mk_violation(sc[0].split(" ")[3], sc, "answers-differ", name, "database_exists answered %s then %s" % (o[2], o[3]), 0))
+    ds = dir_shape_stream(ctx, rng)
+    violations += ds["violations"]
+    divergences += ds["divergences"]
+    evaluations += ds["evaluations"]
+    for sh, en, s1, s2, d in ds["probes"]:
+        if sh != "N0" and sh != "aaa":
+            distinct.add((s1 + "+" + s2, sh, en))
     missing = check_completeness(seen_core, seen_table, seen_static)
     for m in missing:
         divergences.append({"input": "observer list vs public headers", "impl": m, "model": "every public member function is classified and every observer exercised"})
@@ -494,6 +635,7 @@ def tie(ctx):
             "distinct_shapes": len(shapes), "lean_verdicts_on_shapes": lean_hist,
             "shapes_per_observer(sample)": {k: sorted(v)[:4] for k, v in sorted(obs_shapes.items())[:400] if len(v) > 1 or any(x not in ("r", "-") for x in v)},
             "completeness_problems": missing,
+            "directory_shapes": ds["hist"],
         },
         "divergences": divergences[:20],
         "violations": vout,
@@ -507,6 +649,17 @@ def replay(ctx, hdr, body):
     text, ok = [], True
     for l, o in zip(script, outs):
         text.append("%s\n   -> %s" % (l[:160], o[:400]))
+    for l, o in zip(script, outs):
+        if l.startswith("c16.probe "):
+            _, sh, en = l.split(" ")[:3]
+            d = parse_probe(o)
+            if d is None:
+                ok = False
+                text.append("PROBLEM: the probe did not answer: %s" % o[:100])
+            else:
+                for tag, t in judge_probe(sh, en, d):
+                    ok = False
+                    text.append("PROBLEM %s: %s" % (tag, t))
     if script and script[0].startswith("c10.dir") and len(outs) >= 5:
         if outs[1] != outs[4] or outs[2] != outs[3]:
             ok = False
